@@ -44,7 +44,7 @@ import traceback
 
 import numpy as np
 
-from vt.monitors import history
+from vt.monitors import concurrency, history
 
 from vt.core import np_rng_for, Recorder
 from vt.models import em_model as M
@@ -507,6 +507,19 @@ def call(F, fname, *a):
             if verdict == "stale":
                 F.add("stale-state", None, dict(detail, func=fname))
                 raise Abort()
+        if _S["n_" + fname] % 4 == 3 and any(isinstance(v, np.ndarray) and v.ndim >= 1 and v.shape[0] >= 4
+                                              for v in a):
+            # calls of the same shapes from several threads at once (vt/monitors/concurrency.py); the
+            # variants are the arguments rolled along their first axis (values stay in the domain)
+            fn0 = _S.get("orig", {}).get(fname) or getattr(_S["em"], fname)
+            calls = [(fn0, tuple(np.roll(v, k, axis=0) if isinstance(v, np.ndarray) and v.ndim >= 1
+                                 and v.shape[0] >= 4 else v for v in a), {}) for k in range(4)]
+            verdict, detail = concurrency.concurrent_check(calls, threads=4, rounds=2)
+            hk = "concurrent.%s.%s" % (verdict.replace("/", ""), fname)
+            _S.setdefault("hist", {})[hk] = _S.setdefault("hist", {}).get(hk, 0) + 1
+            if verdict == "race":
+                F.add("concurrent-calls-interfere", None, dict(detail, func=fname))
+                raise Abort()
         return out
     except Breach as b:
         F.add(b.key, None, dict(b.detail, inside=fname), case=b.case)
@@ -578,6 +591,25 @@ def seq_planck(A):
         tol = M.rel_planck_wavenumber(x) + rp + M.dlnB_dlnnu(x) * U + 2 * U
         _ratio("planck.wavenumber_form", err, tol, dom)
         F.check("planck-wavenumber-form", dom & ~(err <= tol), {"x": x, "B_nu": Bn, "rel_err": err, "bound": tol})
+        # -- one spectral position (python / numpy scalar) against an array of temperatures -------------
+        if isinstance(T, np.ndarray) and T.ndim >= 1 and T.size >= 2 and isinstance(f, np.ndarray) and f.size:
+            _S["rec"].count("seq.planck.scalar_position_array_T")
+            xs = M.xval(C, float(fa.reshape(-1)[0]), T)
+            doms = (xs >= XMIN) & (xs <= XMAX)
+            for fname, pos, bound in (("planck", fa, M.rel_planck(xs)),
+                                      ("planck_wavelength", np.asarray(lam), M.rel_planck_wavelength(xs)),
+                                      ("planck_wavenumber", np.asarray(nu), M.rel_planck_wavenumber(xs))):
+                p0 = float(pos.reshape(-1)[0])
+                for sc in (p0, np.float64(p0)):
+                    got = call(F, fname, sc, T)
+                    full = call(F, fname, np.full(np.shape(T), p0), T)
+                    ok_shape = np.shape(got) == np.shape(full)
+                    err = _relerr(got, M.ld(full)) if ok_shape else np.array([np.inf])
+                    # (two evaluations of the same formula: each within its rounding bound of the truth;
+                    # python's and numpy's pow / exp may round differently)
+                    F.check("planck-scalar-vs-array",
+                            doms & ~(err <= 2 * bound + 4 * U) if ok_shape else np.array([True]),
+                            {"func": fname, "got_shape": list(np.shape(got)), "want_shape": list(np.shape(full))})
     except Abort:
         pass
     return F
